@@ -11,7 +11,7 @@ LEVEL_TEXT = ("Every method of ComponentFinder (graph.py) is verified for all in
 LEVEL_NOTE = ("Trusted: z3/cvc5, vcgen's semantics of the Python subset, integer model of the generic value type, ComponentFinder.__init__ "
               "(bounded only). Evidence level drops to 'other' in any run where an expected obligation is not discharged.")
 TECHNIQUE = "contract-based deductive verification (sidecar contracts, own VC generator over python ast, z3/cvc5) + bounded model-based runtime contracts"
-D_MODULES = ["contracts.graph_py"]
+D_MODULES = ["contracts.graph_py", "contracts.priorityqueue_pyx"]
 EXPLANATION = (
     "Deductive: every method of whatshap/graph.py:ComponentFinder (union-find) and of whatshap/priorityqueue.pyx "
     "(binary heap + position map) is verified against a data-structure contract (representation invariant WF + abstract view; "
